@@ -54,7 +54,7 @@ RULE = ("op sw: mode mm (SetScore) or mat (DNAfull / BLOSUM62 by detected alphab
         "pairs) x 3 of the schemes and, modulo renaming of letters, x the other 3 (thorough: x all 6); DNAfull: all pairs up to length 3 over {A,C,G,T,N} x 3 gap settings; BLOSUM62/DNAfull "
         "choice: all pairs up to length 3 over {W,E,L,K} x 3 gap settings. Random: related pairs (substitutions + indels) of "
         "length 5..60 with random dyadic schemes (den 1, 2, 4), IUPAC DNA and protein incl. lower case, constructor defaults, "
-        "foreign residues / incompatible alphabets (error path), schemes outside the quantifier (verdict n/a, correspondence "
+        "proteins with stop codons made of IUPAC letters, foreign residues / incompatible alphabets (error path), schemes outside the quantifier (verdict n/a, correspondence "
         "only). non-trivial = the implementation's alignment contains a gap or touches a border of the matrix")
 TIMEOUT = 10.0
 
@@ -226,6 +226,12 @@ def gen(rng, tier):
         yield sw_case(mode, SCHEMES[rng.randrange(len(SCHEMES))] if mode == "mm" else ("d", "d", "d", "d"),
                       s1, s2, "foreign-or-mixed-alphabet")
     for _ in range(N // 5):
+        # protein sequences made of letters that are also IUPAC nucleotide codes, with stop codons
+        s1, s2 = rand_pair(rng, "ACDGHKMNRSTVWY*", 1, 25)
+        mode = rng.choice(["mm", "mat"])
+        yield sw_case(mode, SCHEMES[rng.randrange(len(SCHEMES))] if mode == "mm" else ("d", "d", "d", "d"),
+                      s1, s2, "protein-with-stop-codon")
+    for _ in range(N // 5):
         s1, s2 = rand_pair(rng, "ACGT", 1, 15)
         sch = (rng.randint(-4, 6), rng.randint(-4, 4), rng.randint(-8, 2), rng.randint(-4, 2))
         yield sw_case("mm", sch, s1, s2, "scheme-outside-quantifier")
@@ -257,21 +263,36 @@ def shrink(c):
             size //= 2
 
 
+# oracle tag -> (finding id, variant bit that must be UNSET for the finding to be possible)
 FINDINGS = {
-    "empty-sequence": "sw-empty-panic",
-    "border-max": "sw-border-max",
-    "border-trace": "sw-border-trace",
-    "maxa-init": "sw-maxa-init",
+    "empty-sequence": ("sw-empty-panic", 1),
+    "border-max": ("sw-border-max", 1),
+    "border-trace": ("sw-border-trace", 1),
+    "maxa-init": ("sw-maxa-init", 1),
+    "stop-codon-alphabet": ("sw-stop-codon-alphabet", 2),
 }
 
 
+def variant(c):
+    for f in (c.impl or "").split(" "):
+        if f.startswith("v="):
+            try:
+                return int(f[2:])
+            except ValueError:
+                return None
+    return None
+
+
 def classify(c):
-    """The oracle tags a failure of the shipped aligner (`v=0`) with the recorded finding whose decidable
-    trigger holds on the input AND whose repair makes the whole predicate pass (Oracle/SW.lean
-    `attributeFailure`).  Untagged failures, and failures of the repaired aligner, are never classified."""
+    """The oracle tags a failure with the recorded finding whose decidable trigger holds on the input, whose
+    logic (as modelled for the detected variant) reproduces the failing clause, and whose repair makes the
+    whole predicate pass (Oracle/SW.lean `attributeFailure`).  Untagged failures are never classified, and a
+    finding is impossible once the corresponding repair is detected in the linked library."""
     v = c.verdict or ""
     if not v.startswith("fail:") or "@" not in v:
         return None
-    if " v=0 " not in " " + (c.impl or "") + " ":
+    f = FINDINGS.get(v.split("@", 1)[1])
+    var = variant(c)
+    if f is None or var is None or (var & f[1]):
         return None
-    return FINDINGS.get(v.split("@", 1)[1])
+    return f[0]
